@@ -18,7 +18,8 @@ while args and args[0] in ('-j', '--props'):
     else:
         extra = args[1].split(',')
     args = args[2:]
-seeds = args or sorted(os.listdir(os.path.join(ROOT, 'seeded')))
+SEEDDIR = os.environ.get('SEEDDIR', 'seeded')
+seeds = args or sorted(os.listdir(os.path.join(ROOT, SEEDDIR)))
 BASE = '/tmp/seedwt'
 os.makedirs(BASE, exist_ok=True)
 
@@ -28,7 +29,7 @@ def sh(cmd, **kw):
 
 
 def one(sid):
-    d = os.path.join(ROOT, 'seeded', sid)
+    d = os.path.join(ROOT, SEEDDIR, sid)
     meta = json.load(open(os.path.join(d, 'meta.json')))
     props = extra or [meta['property']]
     wt = os.path.join(BASE, sid)
@@ -67,5 +68,5 @@ with ThreadPoolExecutor(jobs) as ex:
             ln = v['lines']
             print('%-8s %s exit=%s %s' % (sid, p, v['exit'], (ln[1][:170] if len(ln) > 1 else (ln[0][:170] if ln else ''))), (v.get('err') or ''))
         if not extra:
-            json.dump(res, open(os.path.join(ROOT, 'seeded', sid, 'result.json'), 'w'), indent=1)
+            json.dump(res, open(os.path.join(ROOT, SEEDDIR, sid, 'result.json'), 'w'), indent=1)
 sh('git -C /repo worktree prune')
